@@ -232,6 +232,8 @@ def run(chk):
                 if key_cycled and over_payload:
                     zips.append(blk)
             xors = [(bi, s_) for bi, blk_ in enumerate(b.blocks) for s_ in blk_["stmts"] if s_.get("rv") and s_["rv"].get("k") == "bin" and s_["rv"].get("op") == "BitXor" and s_["pl"]["p"]]
+            # (`*byte ^= key_byte` with a `&u8` right-hand side is the BitXorAssign<&u8> impl, a call)
+            xors += [(bi, t_) for bi, t_ in b.calls_to(r"BitXorAssign(<[^>]*>)?>?::bitxor_assign$")]
             cl = zips
             chk.ob("R2.unmask", DEC, "payload[i] ^= masking_key[i % 4]", bool(zips) and len(xors) == 1, f"zip(payload, cycle(masking_key)) sites: {len(zips)}, xor stores: {len(xors)}")
         chk.floor("unmask site (index form or zip/cycle form)", len(cl), 1)
